@@ -28,6 +28,7 @@ zero-token class (C03_C), each VIOLATION on quick seed 0:
 import re
 import sys
 
+from lib import zbox
 from lib.core import exc_name, idset
 from props import c15
 from props.c15 import enc, dec, twice_globs, glob_classes, TWICE_WORDS, HIGH_WORDS, HIGH_CHARS
@@ -198,7 +199,13 @@ def cfgdict(case):
 
 def impl_run(hyp, case):
     im = Impl(cfgdict(case))
-    return [im.run(c) for c in case["cmds"]]
+    if not zbox.is_zodb(case):
+        return [im.run(c) for c in case["cmds"]]
+    box = zbox.ZBox({"idx": im.idx})
+    try:
+        return [box.txn(c, im, ("current",)) if c[0] == "txn" else im.run(c) for c in case["cmds"]]
+    finally:
+        box.close()
 
 
 def model_cmd(c):
@@ -377,6 +384,11 @@ def gen_queries(rng, ctx, n, cmds, neg=0.28):
 
 
 def gen(rng, tier, idx):
+    # 12% of the cases keep the index in a ZODB connection with commits / evictions / aborts in between
+    return zbox.sprinkle(rng, gen_mem(rng, tier, idx), 0.12)
+
+
+def gen_mem(rng, tier, idx):
     pl = rng.choice(["default"] * 7 + ["nostop", "single", "html"])
     backend = rng.choice(["okapi", "cosine"])
     fam = rng.choice(["32", "64"])
